@@ -50,13 +50,21 @@ func resultOf(f func() (string, error)) (out string) {
 
 var fullPlan = simio.Plan{TruncAt: -1, ErrAt: -1}
 
+// forcedOp >= 0: every operation of the run is of this kind (the callers then contend for
+// the same pools and meet the same code paths at the same time).
+var forcedOp = -1
+
 // genCodecOp draws an operation and its private input.
 func genCodecOp() codecOp {
 	nk := 12
 	if len(registry.Types) == 0 {
 		nk = 8
 	}
-	switch ch("c18.op", nk) {
+	op := ch("c18.op", nk)
+	if forcedOp >= 0 {
+		op = forcedOp % nk
+	}
+	switch op {
 	case 6:
 		// random-access request API: DecodeRequest + the responder it returns
 		req := genRequest()
@@ -358,6 +366,11 @@ func c18Codec(res *world.Result, s *simrt.Sim, logf func(string, ...interface{})
 	// text of an error can name whichever invalid map entry the walk meets first: the walk order of
 	// a map must therefore be a function of the map (sorted or reverse), not drawn per walk.
 	s.SetMapOrder(simrt.MapOrder(ch("c18.codec-map-order", 2)))
+	forcedOp = -1
+	if simrt.Flip("c18.same-op", 0.3) {
+		forcedOp = ch("c18.same-op-kind", 12)
+	}
+	defer func() { forcedOp = -1 }()
 	ops := make([]codecOp, K)
 	alone := make([]string, K)
 	for i := range ops {
